@@ -478,12 +478,28 @@ func (b *Bridge) after(in *hub.Instance, g *bridgeGhost, op engine.Op, pre *view
 		b.expiryOracle(in, g, expiredNow, newIDs, locs, preBal, postBal, st)
 	}
 	// status lifecycle (C04): user transfers only (module-created ones share the "#..." hashes)
+	perHash := map[string]int{}
+	for _, k := range ids {
+		if x := g.Xfers[k]; !x.System {
+			perHash[x.TxHash]++
+		}
+	}
 	for _, k := range ids {
 		x := g.Xfers[k]
 		if x.System {
 			continue
 		}
 		stt := in.Hub.GetTxStatus(ctx, x.TxHash).Status
+		// 'refunded' is final for the hash it is reported under
+		if g.RefundedHash[x.TxHash] && stt != mhubtypes.TX_STATUS_REFUNDED {
+			b.v(st, "C04", "refunded_status_not_final", "SetTxStatus", "tx %s was reported REFUNDED and is now %s", x.TxHash[:8], stt)
+		}
+		if stt == mhubtypes.TX_STATUS_REFUNDED {
+			g.RefundedHash[x.TxHash] = true
+		}
+		if perHash[x.TxHash] > 1 {
+			continue // several transfers of one transaction share one status: only finality can be demanded
+		}
 		ok := true
 		switch {
 		case x.Where == "executed":
@@ -497,6 +513,34 @@ func (b *Bridge) after(in *hub.Instance, g *bridgeGhost, op engine.Op, pre *view
 		}
 		if !ok {
 			b.v(st, "C04", "status_disagrees_with_location", "SetTxStatus", "%s is %s but status is %s", k, x.Where, stt)
+		}
+	}
+
+	// ---- C01: a cross-chain deposit puts at most what it locked in flight (the transfer it creates carries its tx hash)
+	if endBlock && b.Cfg.Prop == "C01" {
+		for _, p := range g.Pending {
+			if p.Kind != "dep-chain" || p.TxHash == "" {
+				continue
+			}
+			worth := new(big.Rat)
+			n := 0
+			for _, k := range newIDs {
+				e := locs[k][0].ent
+				if e.TxHash != p.TxHash {
+					continue
+				}
+				if t := b.tokenByExt(e.ChainId, e.Token.ExternalTokenId); t != nil {
+					worth.Add(worth, toHubRat(e.Token.Amount.Add(e.Fee.Amount).Add(e.ValCommission.Amount).BigInt(), t.Dec))
+					n++
+				}
+			}
+			locked, _ := new(big.Rat).SetString(p.Locked)
+			if n > 0 && worth.Cmp(locked) > 0 {
+				st.Violate("C01", "cross_chain_transfer_exceeds_locked_deposit", "Handle(TransferToChainEvent->chain)", "deposit %s locked %s hub units on %s but the transfer it created towards %s is worth %s", p.TxHash, locked.RatString(), p.Chain, p.Recv, worth.RatString())
+			}
+			if n > 0 {
+				st.Count("cross_chain_transfers_checked", 1)
+			}
 		}
 	}
 
